@@ -570,10 +570,10 @@ func pad(c ugo.Call, left bool) (ugo.Object, error) {
 		return ugo.Undefined,
 			ugo.NewArgumentTypeError("2nd", "int", c.Get(1).TypeName())
 	}
-	diff := padLen - len(s)
-	if diff <= 0 {
+	if padLen <= len(s) {
 		return ugo.String(s), nil
 	}
+	diff := padLen - len(s)
 	if padLen > math.MaxInt32 {
 		return ugo.Undefined,
 			ugo.NewArgumentTypeError("2nd", "int up to "+strconv.Itoa(math.MaxInt32), "too large int")
